@@ -121,7 +121,7 @@ func c17Run[T constraints.Integer](c c17Case, base T) *eng.Fail {
 		return &eng.Fail{Sig: site + " non-canonical", What: site + " result not canonical: " + e, Case: c}
 	}
 	if m != exp {
-		return &eng.Fail{Sig: site + " wrong-set", What: fmt.Sprintf("%s yields set %08b, expected %08b", site, m, exp), Case: c, Expected: exp, Observed: m}
+		return &eng.Fail{Sig: site + " wrong-set", What: fmt.Sprintf("%s yields set %08b, expected %08b (bit i = universe element i; operands %b and %b)", site, m, exp, c.A, c.B), Case: c, Expected: exp, Observed: m}
 	}
 	return nil
 }
@@ -224,7 +224,7 @@ func c17Dispatch(c c17Case) *eng.Fail {
 
 func init() {
 	checks["C17"] = eng.Check{
-		Rule: "every list of <=3 (quick) / <=4 (thorough) non-empty intervals over a universe of 8 (quick) / 12 (thorough) integers for NewMap; all 2^U x 2^U pairs of subsets of the universe for union, complement, intersect; at 5 placements (int at 0, int straddling 0, int64 at MinInt64, uint64 and uint8 ending at Max); sequences r1=op1(a,b), r2=op2(a,c) or op2(c,a) over all 64^3 triples of 6-bit sets in 3 relative placements x 9 operator pairs (quick: all pairs involving union, a quarter of the others), operands built directly and from unit intervals that NewMap must merge: the second result is exact and the earlier result and all operands are unchanged. Non-trivial = case whose expected result is a non-empty set and whose operands are both non-empty.",
+		Rule: "every list of <=3 (quick) / <=4 (thorough) non-empty intervals over a universe of 8 (quick) / 12 (thorough) integers for NewMap; all 2^U x 2^U pairs of subsets of the universe for union, complement, intersect; at 5 placements (int at 0, int straddling 0, int64 at MinInt64, uint64 and uint8 ending at Max); sequences r1=op1(a,b), r2=op2(a,c) or op2(c,a) over all 64^3 triples of 6-bit sets in 3 relative placements x 9 operator pairs (quick: all pairs involving union, a quarter of the others), operands built directly and from unit intervals that NewMap must merge: the second result is exact and the earlier result and all operands are unchanged; large operands: over a universe of 48 integers every set of many intervals (periodic patterns of period 2..5 in every phase and run length, 9..24 intervals, those of period 4 also with each single interval removed) against every set of one or two intervals with ends on a 16-point grid and against each other, both operand orders, all three operations; NewMap of each many-interval set handed in sorted, reversed, rotated, interleaved and with every interval twice. Non-trivial = case whose expected result is a non-empty set and whose operands are both non-empty.",
 		Assumptions: []string{
 			"interval ends are representable (universe ends at Max, never beyond)",
 			"NewMap receives only non-empty intervals (the property's domain)",
@@ -327,6 +327,119 @@ func init() {
 					}
 				}
 			})
+			// large operands: a universe of 48 integers; sets of MANY intervals (periodic patterns of
+			// period 2..5, every phase and run length, 9..24 intervals; those of period 4 also with each
+			// single interval removed) against sets of FEW intervals (one or two intervals with ends
+			// on a 16-point grid) and against each other, both operand orders, every operation
+			small := c17U
+			c17U = 48
+			var many, few []int
+			seenM := map[int]bool{}
+			addMany := func(m int) {
+				if !seenM[m] && m != 0 {
+					seenM[m] = true
+					many = append(many, m)
+				}
+			}
+			for p := 2; p <= 5; p++ {
+				for l := 1; l < p; l++ {
+					for o := 0; o < p; o++ {
+						m := 0
+						for i := o; i < c17U; i++ {
+							if (i-o)%p < l {
+								m |= 1 << i
+							}
+						}
+						addMany(m)
+						if p == 4 {
+							for k := o; k < c17U; k += p {
+								addMany(m &^ (((1 << l) - 1) << k))
+							}
+						}
+					}
+				}
+			}
+			grid := []int{0, 1, 2, 3, 5, 8, 12, 13, 14, 20, 21, 30, 31, 40, 47, 48}
+			var gi []int
+			for i, b := range grid {
+				for _, e := range grid[i+1:] {
+					gi = append(gi, (1<<e-1)&^(1<<b-1))
+				}
+			}
+			few = append(few, gi...)
+			for i, x := range gi {
+				for _, y := range gi[i+1:] {
+					if x&y == 0 && x&(y<<1) == 0 && x&(y>>1) == 0 {
+						few = append(few, x|y)
+					}
+				}
+			}
+			r.Note("large universe=%d many-interval sets=%d few-interval sets=%d", c17U, len(many), len(few))
+			bigPair := func(ty string, a, b int) {
+				for _, op := range []string{"union", "complement", "intersect"} {
+					for _, pr := range [][2]int{{a, b}, {b, a}} {
+						c := c17Case{Type: ty, Op: op, A: pr[0], B: pr[1], U: c17U}
+						f := c17Dispatch(c)
+						r.Eval(1)
+						r.Nontrivial(1)
+						if f != nil {
+							r.Report(f)
+							r.Outcome(f.Sig)
+						}
+					}
+				}
+			}
+			r.Par(len(many), func(i int) {
+				ty := []string{"int", "uint64top"}[i%2]
+				for _, f := range few {
+					bigPair(ty, many[i], f)
+				}
+				for _, m := range many[i:] {
+					bigPair(ty, many[i], m)
+				}
+				// NewMap of the many intervals (9..24, more than a library sort handles by insertion)
+				// handed in reversed, rotated, interleaved and with every interval given twice
+				var l [][2]int
+				for b := 0; b < c17U; {
+					if many[i]>>b&1 == 0 {
+						b++
+						continue
+					}
+					e := b
+					for e < c17U && many[i]>>e&1 == 1 {
+						e++
+					}
+					l = append(l, [2]int{b, e})
+					b = e
+				}
+				n := len(l)
+				orders := [][][2]int{l}
+				rev := make([][2]int, n)
+				rot := make([][2]int, n)
+				var inter, twice [][2]int
+				for k := range l {
+					rev[n-1-k] = l[k]
+					rot[(k+5)%n] = l[k]
+					twice = append(twice, l[n-1-k], l[k])
+				}
+				for k := 0; k < n; k += 2 {
+					inter = append(inter, l[k])
+				}
+				for k := 1; k < n; k += 2 {
+					inter = append(inter, l[k])
+				}
+				orders = append(orders, rev, rot, inter, twice)
+				for _, o := range orders {
+					f := c17Dispatch(c17Case{Type: ty, Op: "newmap", List: o, U: c17U})
+					r.Eval(1)
+					r.Nontrivial(1)
+					if f != nil {
+						r.Report(f)
+						r.Outcome(f.Sig)
+					}
+				}
+			})
+			c17U = small
 			r.Sample(c17Case{Type: "int", Op: "seq", A: 0b11, B: 0b110000, C: 0b11000000, Op1: "union", Op2: "union", Unit: true})
 			r.Sample(c17Case{Type: "int", Op: "intersect", A: 0b101, B: 0b10111})
 		},
